@@ -96,6 +96,15 @@ CLAIMED["C25"] = (
     "pure functions of the graph; sort.Sort/sort.Strings are permutations (assumed); nil-dereference obligations are switched off for targetsToRemove.",
     "contract-based deductive verification (recursive contract, closure invariants over maps + SMT)", "6/C25")
 
+CLAIMED["C26"] = (
+    "Proof of the outcome summaries in core/test_results.go against specifications taken from the statement: Success/Skip/Failures/Errors "
+    "report exactly whether some execution passed / was skipped / failed / errored; AllSucceeded is true exactly when every case succeeded "
+    "in some execution or was skipped; Passes/Failures/Errors/Skips equal recursive count specifications over the cases; findMatchingTestCase "
+    "returns the first case with the same name AND class name (or -1), which is what decides that flaky retries are merged and distinct cases "
+    "are not. Kernel-only: the JUnit-XML and `go test -v` parsers (encoding/xml, go-junit-report) and doFlakeRun are not under contract.",
+    COMMON_NOTE + "&loopVariable is modelled as a fresh cell holding the current value.",
+    "contract-based deductive verification (search/count loop invariants, recursive count specs + SMT)", "6/C26")
+
 NOT_APPLICABLE = {
     "C05": "liveness / whole-run exit status under all schedules: no per-call contract expresses it (safety fragment is under C04)",
     "C30": "OS process groups, signals and wall-clock bounds; goroutines and select are outside the sequential contract model",
